@@ -169,12 +169,16 @@ impl Prop for C06 {
     fn doms(&self) -> Vec<Dom> {
         let mut d: Vec<Dom> = self.sets.iter().map(|s| Dom::new(format!("{}/{}", s.l.tag(), s.name), seqs_len(s.menu.len() as u64, s.lo, s.hi), s.block)).collect();
         d.push(Dom::new("big stores: 99 / 101 / 121 / 150 records sharing grams, limits 9..12, n/10, n/10+1, n, n+2", self.big.len() as u64, 1));
+        d.push(Dom::new("en/the whole e-commerce corpus as one store (3 285 records), limits 10 and 3: soundness clauses", 3285, 60));
         d
     }
     fn run(&self, dom: usize, idx: u64, cx: &mut Cx) {
         if dom == self.sets.len() {
             let (l, n) = self.big[idx as usize];
             return self.run_big(l, n, cx);
+        }
+        if dom == self.sets.len() + 1 {
+            return self.run_corpus(idx, cx);
         }
         let set = &self.sets[dom];
         let l = set.l;
@@ -321,6 +325,54 @@ impl Prop for C06 {
 }
 
 impl C06 {
+    /// |store| > 10 * limit: only the soundness half applies - at most `limit` hits, no record twice, every hit
+    /// highlighted exactly as in a store of its own.  Queries are derived from the idx-th title.
+    fn run_corpus(&self, idx: u64, cx: &mut Cx) {
+        let l = L::En;
+        for limit in [10usize, 3] {
+            let r = with_full_store(l, limit, |st, titles| {
+                let title = titles[idx as usize].clone();
+                let words: Vec<&str> = title.split_whitespace().collect();
+                let mut queries: Vec<String> = Vec::new();
+                if let Some(w) = words.first() {
+                    queries.push(w.chars().take(3).collect());
+                    queries.push(w.to_string());
+                }
+                if words.len() >= 2 {
+                    queries.push(format!("{} {}", words[0], words[1].chars().take(2).collect::<String>()));
+                    queries.push(format!("{} {}", words[words.len() - 1], words[0]));
+                }
+                for q in queries {
+                    cx.eval();
+                    let Ok(hits) = cx.search(st, &q) else { return };
+                    cx.validated();
+                    let mut ids = ids(&hits);
+                    ids.sort();
+                    ids.dedup();
+                    if hits.len() > limit || ids.len() != hits.len() {
+                        cx.fail("C06:more-hits-than-limit", || json!({"lang": l.tag(), "store": "all 3 285 e-commerce titles", "limit": limit, "query": q, "observed": hits}));
+                    }
+                    for (id, got) in &hits {
+                        let one = vec![rec(*id, &titles[*id], 1)];
+                        let alone = St::with(l, &one, None, None).and_then(|mut s| s.search(&q));
+                        let want = alone.ok().and_then(|h| h.into_iter().next().map(|x| x.1));
+                        if want.as_ref() != Some(got) {
+                            cx.fail("C06:hit-differs-from-single-record-store", || json!({"lang": l.tag(), "store": "all 3 285 e-commerce titles", "limit": limit, "query": q, "record": titles[*id], "in_this_store": got, "in_a_store_of_its_own": want}));
+                        }
+                    }
+                    if hits.len() == limit {
+                        cx.nontrivial();
+                    }
+                    cx.class(if hits.len() == limit { "corpus:limit-reached" } else { "corpus:fewer-than-limit" });
+                }
+            });
+            if r.is_none() {
+                cx.machinery("C06: the e-commerce corpus store could not be built".into());
+            }
+        }
+        cx.state();
+    }
+
     fn asym(&self, cx: &mut Cx, l: L, recs: &[Rec], what: &str) {
         // building the multi-record store panicked: is it the records themselves?
         for r in recs {
